@@ -65,6 +65,9 @@ def main():
                 r = mod.execute(trace, {'hashseed': hs})
                 res.update(r)
                 res['seed'] = job['seed']
+                if isinstance(r.get('stats'), dict):
+                    from dst.expr import world_features
+                    r['stats']['world_features'] = world_features(trace)
                 if r['violations'] or job.get('want_trace'):
                     res['trace'] = trace
             elif job['cmd'] == 'exec':
